@@ -417,6 +417,43 @@ static void yield_filewrite(int fd, const char *what, size_t n) {
     park("fsw", 0, -1, NULL, NULL, "%s %s %zu", what, rel(p), n);
 }
 
+/* File times live in simulated time too: whatever a process of the system
+ * writes or creates below the root gets the simulated clock as its mtime (the
+ * kernel would use the real clock, which the run must not depend on). */
+static void sim_times(struct timespec ts[2]) {
+    long long t = EPOCH_BASE_S * 1000000000LL + now_ns;
+    ts[0].tv_sec = ts[1].tv_sec = t / 1000000000LL;
+    ts[0].tv_nsec = ts[1].tv_nsec = t % 1000000000LL;
+}
+
+static void stamp_fd(int fd) {
+    struct timespec ts[2];
+    sim_times(ts);
+    RAW(SYS_utimensat, fd, NULL, ts, 0);
+}
+
+static void stamp_path(int dirfd, const char *path, int nofollow) {
+    char abs[2048];
+    if (!under_root_at(dirfd, path, abs, sizeof abs))
+        return;
+    struct timespec ts[2];
+    sim_times(ts);
+    RAW(SYS_utimensat, AT_FDCWD, abs, ts, nofollow ? AT_SYMLINK_NOFOLLOW : 0);
+}
+
+/* replace NULL / UTIME_NOW by the simulated clock */
+static const struct timespec *fix_times(const struct timespec in[2], struct timespec out[2]) {
+    struct timespec now[2];
+    sim_times(now);
+    for (int i = 0; i < 2; i++) {
+        if (!in || in[i].tv_nsec == UTIME_NOW)
+            out[i] = now[i];
+        else
+            out[i] = in[i];
+    }
+    return out;
+}
+
 /* ------------------------------------------------------- process control */
 
 pid_t fork(void) {
@@ -776,8 +813,12 @@ ssize_t write(int fd, const void *buf, size_t n) {
     int k = fd_kind(fd, &st);
     if (k == FD_PIPE)
         return pipe_write(fd, buf, n, (unsigned long)st.st_ino);
-    if (k == FD_ROOTFILE)
+    if (k == FD_ROOTFILE) {
         yield_filewrite(fd, "write", n);
+        ssize_t r = real_write(fd, buf, n);
+        stamp_fd(fd);
+        return r;
+    }
     return real_write(fd, buf, n);
 }
 
@@ -802,22 +843,34 @@ ssize_t writev(int fd, const struct iovec *iov, int cnt) {
         }
         return total;
     }
-    if (k == FD_ROOTFILE)
+    if (k == FD_ROOTFILE) {
         yield_filewrite(fd, "write", 0);
+        ssize_t r = real_writev(fd, iov, cnt);
+        stamp_fd(fd);
+        return r;
+    }
     return real_writev(fd, iov, cnt);
 }
 
 ssize_t pwrite(int fd, const void *buf, size_t n, off_t off) {
     LOAD(pwrite);
-    if (enabled && fd_kind(fd, NULL) == FD_ROOTFILE)
+    if (enabled && fd_kind(fd, NULL) == FD_ROOTFILE) {
         yield_filewrite(fd, "pwrite", n);
+        ssize_t r = real_pwrite(fd, buf, n, off);
+        stamp_fd(fd);
+        return r;
+    }
     return real_pwrite(fd, buf, n, off);
 }
 
 ssize_t pwrite64(int fd, const void *buf, size_t n, off_t off) {
     LOAD(pwrite64);
-    if (enabled && fd_kind(fd, NULL) == FD_ROOTFILE)
+    if (enabled && fd_kind(fd, NULL) == FD_ROOTFILE) {
         yield_filewrite(fd, "pwrite", n);
+        ssize_t r = real_pwrite64(fd, buf, n, off);
+        stamp_fd(fd);
+        return r;
+    }
     return real_pwrite64(fd, buf, n, off);
 }
 
@@ -832,8 +885,12 @@ ssize_t copy_file_range(int in, off64_t *oin, int out, off64_t *oout, size_t n, 
             errno = EINVAL;
             return -1;
         }
-        if (fd_kind(out, NULL) == FD_ROOTFILE)
+        if (fd_kind(out, NULL) == FD_ROOTFILE) {
             yield_filewrite(out, "copy", n);
+            ssize_t r = real_copy_file_range(in, oin, out, oout, n, fl);
+            stamp_fd(out);
+            return r;
+        }
     }
     return real_copy_file_range(in, oin, out, oout, n, fl);
 }
@@ -845,8 +902,12 @@ ssize_t sendfile(int out, int in, off_t *off, size_t n) {
             errno = EINVAL;
             return -1;
         }
-        if (fd_kind(out, NULL) == FD_ROOTFILE)
+        if (fd_kind(out, NULL) == FD_ROOTFILE) {
             yield_filewrite(out, "copy", n);
+            ssize_t r = real_sendfile(out, in, off, n);
+            stamp_fd(out);
+            return r;
+        }
     }
     return real_sendfile(out, in, off, n);
 }
@@ -858,8 +919,12 @@ ssize_t sendfile64(int out, int in, off64_t *off, size_t n) {
             errno = EINVAL;
             return -1;
         }
-        if (fd_kind(out, NULL) == FD_ROOTFILE)
+        if (fd_kind(out, NULL) == FD_ROOTFILE) {
             yield_filewrite(out, "copy", n);
+            ssize_t r = real_sendfile64(out, in, off, n);
+            stamp_fd(out);
+            return r;
+        }
     }
     return real_sendfile64(out, in, off, n);
 }
@@ -1203,8 +1268,11 @@ static void yield_open(int dirfd, const char *path, int flags) {
     if (enabled)                                                                               \
         yield_open(dirfd_expr, path, flags);                                                   \
     int fd = pass_dirfd;                                                                       \
-    if (enabled)                                                                               \
+    if (enabled) {                                                                             \
         note_urandom(fd, path);                                                                \
+        if (fd >= 0 && (flags & (O_CREAT | O_TRUNC)) && fd_kind(fd, NULL) == FD_ROOTFILE)      \
+            stamp_fd(fd);                                                                      \
+    }                                                                                          \
     return fd;
 
 int open(const char *path, int flags, ...) {
@@ -1290,7 +1358,10 @@ int symlink(const char *t, const char *p) {
     LOAD(symlink);
     if (enabled)
         yield_path2("symlink", AT_FDCWD, p, 0, NULL);
-    return real_symlink(t, p);
+    int r = real_symlink(t, p);
+    if (enabled)
+        stamp_path(AT_FDCWD, p, 1);
+    return r;
 }
 
 int link(const char *a, const char *b) {
@@ -1304,27 +1375,41 @@ int truncate(const char *p, off_t n) {
     LOAD(truncate);
     if (enabled)
         yield_path2("truncate", AT_FDCWD, p, 0, NULL);
-    return real_truncate(p, n);
+    int r = real_truncate(p, n);
+    if (enabled)
+        stamp_path(AT_FDCWD, p, 0);
+    return r;
 }
 
 int truncate64(const char *p, off_t n) {
     LOAD(truncate64);
     if (enabled)
         yield_path2("truncate", AT_FDCWD, p, 0, NULL);
-    return real_truncate64(p, n);
+    int r = real_truncate64(p, n);
+    if (enabled)
+        stamp_path(AT_FDCWD, p, 0);
+    return r;
 }
 
 int ftruncate(int fd, off_t n) {
     LOAD(ftruncate);
-    if (enabled && fd_kind(fd, NULL) == FD_ROOTFILE)
+    if (enabled && fd_kind(fd, NULL) == FD_ROOTFILE) {
         yield_filewrite(fd, "ftruncate", (size_t)n);
+        int r = real_ftruncate(fd, n);
+        stamp_fd(fd);
+        return r;
+    }
     return real_ftruncate(fd, n);
 }
 
 int ftruncate64(int fd, off_t n) {
     LOAD(ftruncate64);
-    if (enabled && fd_kind(fd, NULL) == FD_ROOTFILE)
+    if (enabled && fd_kind(fd, NULL) == FD_ROOTFILE) {
         yield_filewrite(fd, "ftruncate", (size_t)n);
+        int r = real_ftruncate64(fd, n);
+        stamp_fd(fd);
+        return r;
+    }
     return real_ftruncate64(fd, n);
 }
 
@@ -1339,6 +1424,9 @@ int utimensat(int d, const char *p, const struct timespec ts[2], int fl) {
     LOAD(utimensat);
     if (enabled && p)
         yield_path2("utimes", d, p, 0, NULL);
+    struct timespec fixed[2];
+    if (enabled)
+        ts = fix_times(ts, fixed);
     return real_utimensat(d, p, ts, fl);
 }
 
@@ -1346,6 +1434,9 @@ int futimens(int fd, const struct timespec ts[2]) {
     LOAD(futimens);
     if (enabled && fd_kind(fd, NULL) == FD_ROOTFILE)
         yield_filewrite(fd, "futimens", 0);
+    struct timespec fixed[2];
+    if (enabled)
+        ts = fix_times(ts, fixed);
     return real_futimens(fd, ts);
 }
 
